@@ -1,7 +1,7 @@
 """C18 - fingerprints and key ids are the RFC 4880 values and are stable (DESIGN.md 3/C18)."""
 import warnings
 
-from vlib.h import ob
+from vlib.h import ob, native
 from harness import encfix
 from harness.encfix import _Sha
 from harness.c08 import pack, pub_body, OID_ED, OID_P256, OID_CV
@@ -24,7 +24,15 @@ def _mk_keys():
     enc.add_uid(PGPUID.new('enc'), usage={K.KeyFlags.Sign, K.KeyFlags.Certify}, hashes=[K.HashAlgorithm.SHA256], ciphers=[K.SymmetricKeyAlgorithm.AES128],
                 compression=[K.CompressionAlgorithm.Uncompressed], created=sigfix.T0)
     enc.add_subkey(PGPKey.new(K.PubKeyAlgorithm.ECDH, K.EllipticCurveOID.Curve25519, created=sigfix.T0), usage={K.KeyFlags.EncryptCommunications}, created=sigfix.T0)
-    return signer, enc
+    # a certify-only primary that delegates signing to a subkey made one second later (so that it gets its own forced digest)
+    deleg = PGPKey.new(K.PubKeyAlgorithm.EdDSA, K.EllipticCurveOID.Ed25519, created=sigfix.T0)
+    deleg.add_uid(PGPUID.new('deleg'), usage={K.KeyFlags.Certify}, hashes=[K.HashAlgorithm.SHA256], created=sigfix.T0)
+    deleg.add_subkey(PGPKey.new(K.PubKeyAlgorithm.EdDSA, K.EllipticCurveOID.Ed25519, created=T0_PLUS1), usage={K.KeyFlags.Sign}, created=T0_PLUS1)
+    return signer, enc, deleg
+
+
+from datetime import datetime as _dt, timezone as _tz
+T0_PLUS1 = _dt.fromtimestamp(1_600_000_001, _tz.utc)
 
 warnings.simplefilter('ignore')
 
@@ -45,11 +53,11 @@ class Rec(_Sha):
         super().__init__(data)
         Rec.log.append(self)
 
-    forced = None          # O18.4: {public-key algorithm octet: 40 hex digits} - the digest value becomes a per-path choice
+    forced = None          # O18.4: {(public-key algorithm octet, last creation-time octet): 40 hex digits} - the digest value becomes a per-path choice
 
     def hexdigest(self):
         if Rec.forced is not None:
-            return Rec.forced[self.data[8]]
+            return Rec.forced[(self.data[8], self.data[7])]
         return '0123456789ABCDEF0123456789ABCDEF01234567'       # (rendering 20 symbolic octets as hex is C code: the value is not what is studied)
 
 
@@ -175,16 +183,36 @@ def fpr_dsa_elg(dsa: bool, b0: int, b1: int, v0: int, v1: int, v2: int, v3: int)
 
 
 from datetime import datetime, timezone, timedelta
-ZONES = (timezone.utc, timezone(timedelta(hours=2)), timezone(timedelta(hours=-5, minutes=-30)), timezone(timedelta(hours=14)))
+ZONES = (timezone.utc, timezone(timedelta(hours=2)), timezone(timedelta(hours=-5, minutes=-30)), timezone(timedelta(hours=14)), None)
 STAMPS = (0, 1, 1_600_000_000, 2 ** 31 - 1, 2 ** 31, 2 ** 32 - 1)
 
 
+@ob('O18.1-opaque', 'keys of a public-key algorithm PGPy has no class for (kept as opaque octets): hashed octets = 99 || len2 || exported public body, also for a copy',
+    'algorithm 21 (X9.42 Diffie-Hellman); 2..4 symbolic material octets; primary or subkey packet', cond_timeout={'q': 200, 't': 600})
+def fpr_opaque(sub: bool, mat: bytes) -> bool:
+    """
+    pre: 2 <= len(mat) <= 4
+    post: _
+    """
+    raw = pack(14 if sub else 6, pub_body(21, bytes(mat)), 0)
+    try:
+        pkt = Packet(bytearray(raw))
+    except Exception:
+        return True
+    body = body_of(pkt)
+    if body != pub_body(21, bytes(mat)):
+        return False
+    fed, _ = fed_for(pkt)
+    fed_c, _ = fed_for(_copy.copy(pkt))
+    return fed == expect(body) and fed_c == fed
+
+
 @ob('O18.1-tz', 'creation times given as zone-aware datetimes whose local rendering differs from UTC: the hashed octets are still 99 || len2 || exported body '
-                '(fingerprint and export agree on the four time octets), and those octets are the Unix time', 'zone by symbolic index from {UTC, +02:00, -05:30, +14:00} x instant from 6 boundary values; '
+                '(fingerprint and export agree on the four time octets), and those octets are the Unix time', 'zone by symbolic index from {UTC, +02:00, -05:30, +14:00, naive (= UTC) in a process whose zone is UTC-11} x instant from 6 boundary values; '
                 'RSA material with 2 symbolic octets; key packet built through the API (created=...)', cond_timeout={'q': 280, 't': 600}, flags=('symmpi',))
 def fpr_timezone(zi: int, si: int, n0: int, e0: int) -> bool:
     """
-    pre: 0 <= zi < 4
+    pre: 0 <= zi < 5
     pre: 0 <= si < 6
     pre: 128 <= n0 < 256 and 1 <= e0 < 256
     post: _
@@ -193,7 +221,7 @@ def fpr_timezone(zi: int, si: int, n0: int, e0: int) -> bool:
     from pgpy.packet.types import MPI
     from pgpy.constants import PubKeyAlgorithm
     zone, stamp = ZONES[0], STAMPS[0]
-    for k in range(4):
+    for k in range(5):
         if zi == k:
             zone = ZONES[k]
     for k in range(6):
@@ -203,7 +231,10 @@ def fpr_timezone(zi: int, si: int, n0: int, e0: int) -> bool:
     pk.pkalg = PubKeyAlgorithm.RSAEncryptOrSign
     pk.keymaterial.n = MPI(n0 * 2 ** 24 + 0x070903)
     pk.keymaterial.e = MPI(e0)
-    pk.created = datetime.fromtimestamp(stamp, zone)
+    if zone is None:
+        pk.created = datetime.fromtimestamp(stamp, timezone.utc).replace(tzinfo=None)        # naive: PGPy takes it as UTC (with a warning); the process zone is not UTC
+    else:
+        pk.created = datetime.fromtimestamp(stamp, zone)
     pk.update_hlen()
     fed, fp = fed_for(pk)
     body = body_of(pk)
@@ -295,26 +326,34 @@ def _stub_ecdh_encrypt(cls, pk, *args):
 @ob('O18.4', 'the ids PGPy writes are the fingerprint / its low 64 bits, octet for octet: issuer and issuer-fingerprint subpackets of a signature, the key id of the one-pass packet, '
              'and the recipient key id of a public-key session-key packet (of the encryption subkey, not the primary)',
     'SHA-1 replaced by a stand-in whose value is chosen by symbolic index from 7 adversarial 160-bit values (leading / trailing zero octets and nibbles in fingerprint and key id), '
-    'independently for the signer / primary and for the encryption subkey', cond_timeout={'q': 280, 't': 600})
-def ids_written(fa: int, fb: int) -> bool:
+    'independently for the signer / primary, for the encryption subkey and for a signing subkey a certify-only primary delegates to', cond_timeout={'q': 280, 't': 600})
+def ids_written(fa: int, fb: int, fc: int = 1) -> bool:
     """
-    pre: 0 <= fa < 7 and 0 <= fb < 7
+    pre: 0 <= fa < 7 and 0 <= fb < 7 and 0 <= fc < 7
+    pre: fa != fc
     post: _
     """
-    a = b = FPS[0]
+    a = b = c = FPS[0]
     for k in range(7):
         if fa == k:
             a = FPS[k]
         if fb == k:
             b = FPS[k]
+        if fc == k:
+            c = FPS[k]
+    with native():                  # a, b, c are concrete on this path: key generation and signing run as in production
+        return _ids_written_concrete(a, b, c)
+
+
+def _ids_written_concrete(a, b, c):
     saved = F.ECDHCipherText.__dict__['encrypt']
     sigfix.install_oracle()
     F.ECDHCipherText.encrypt = classmethod(_stub_ecdh_encrypt)
-    Rec.forced = {22: a, 18: b}
+    Rec.forced = {(22, 0): a, (18, 0): b, (22, 1): c}          # T0 = 0x5F5E1000: last time octet 00; the delegated signing subkey is made at T0 + 1
     try:
-        SIGNER, ENC = _mk_keys()
+        SIGNER, ENC, DELEG = _mk_keys()
         ENCPUB = ENC.pubkey
-        if str(SIGNER.fingerprint) != a or SIGNER.fingerprint.keyid != a[24:] or list(ENC.subkeys) != [b[24:]]:
+        if str(SIGNER.fingerprint) != a or SIGNER.fingerprint.keyid != a[24:] or list(ENC.subkeys) != [b[24:]] or list(DELEG.subkeys) != [c[24:]]:
             return False
         msg = PGPMessage.new(b'x', compression=K.CompressionAlgorithm.Uncompressed, file=False, format='b')
         sig = SIGNER.sign(msg, created=sigfix.T0)
@@ -324,6 +363,17 @@ def ids_written(fa: int, fb: int) -> bool:
         msg |= sig
         out = msg.__bytes__()
         if out[0] != 0xC4 or out[2:6] != bytes([3, 0, 8, 22]) or out[6:14] != bytes.fromhex(a[24:]):
+            return False
+        # a signature the primary delegates to its signing subkey names the SUBKEY in both issuer fields - and so does the embedded
+        # primary-key-binding signature inside that subkey's binding signature
+        dsig = DELEG.sign(b'doc', created=sigfix.T0)
+        draw = bytes(dsig.__bytearray__())
+        if R.sp_issuer_fpr(bytes.fromhex(c)) not in draw or (bytes([9, 16]) + bytes.fromhex(c[24:])) not in draw:
+            return False
+        if a != c and (R.sp_issuer_fpr(bytes.fromhex(a)) in draw):
+            return False
+        dexp = bytes(DELEG.pubkey.__bytearray__())
+        if dexp.count(R.sp_issuer_fpr(bytes.fromhex(c))) != 1 or dexp.count(R.sp_issuer_fpr(bytes.fromhex(a))) < 2:
             return False
         enc = ENCPUB.encrypt(PGPMessage.new(b'y', compression=K.CompressionAlgorithm.Uncompressed, file=False, format='b'), cipher=K.SymmetricKeyAlgorithm.AES128)
         eb = enc.__bytes__()
@@ -335,6 +385,6 @@ def ids_written(fa: int, fb: int) -> bool:
         sigfix.remove_oracle()
 
 
-SANITY = ['ids_written(%d, %d)' % (i, (i * 3 + 1) % 7) for i in range(7)] + ['fpr_protected(254, 3, True, 0, 1, 2, 3, 4)', 'fpr_protected(255, 0, False, 1, 1, 2, 3, 4)', 'fpr_protected(254, 101, False, 2, 1, 2, 3, 4)', 'fpr_protected(254, 1, True, 2, 0, 0, 0, 0)'] + ['fpr_timezone(%d, %d, 0x81, 3)' % (z, t) for z in range(4) for t in range(6)] + ['fpr_rsa(False, False, 32, 0x80, 1, 17, 1, 1)', 'fpr_rsa(False, True, 25, 0, 1, 1, 1, 0)', 'fpr_rsa(True, False, 32, 0x80, 1, 17, 1, 1)', 'fpr_rsa(True, True, 31, 1, 1, 16, 0, 9)',
+SANITY = ['fpr_opaque(False, b"\\x00\\x08\\x81\\x00")', 'fpr_opaque(True, b"ab")'] + ['ids_written(%d, %d, %d)' % (i, (i * 3 + 1) % 7, (i * 5 + 2) % 7) for i in range(7) if i != 3] + ['fpr_protected(254, 3, True, 0, 1, 2, 3, 4)', 'fpr_protected(255, 0, False, 1, 1, 2, 3, 4)', 'fpr_protected(254, 101, False, 2, 1, 2, 3, 4)', 'fpr_protected(254, 1, True, 2, 0, 0, 0, 0)'] + ['fpr_timezone(%d, %d, 0x81, 3)' % (z, t) for z in range(5) for t in range(6)] + ['fpr_rsa(False, False, 32, 0x80, 1, 17, 1, 1)', 'fpr_rsa(False, True, 25, 0, 1, 1, 1, 0)', 'fpr_rsa(True, False, 32, 0x80, 1, 17, 1, 1)', 'fpr_rsa(True, True, 31, 1, 1, 16, 0, 9)',
           'fpr_ec(0, False, 1, 2, 0, 0)', 'fpr_ec(1, False, 0, 3, 0, 0)', 'fpr_ec(2, False, 2, 2, 1, 2)', 'fpr_ec(0, True, 1, 1, 0, 0)', 'fpr_ec(2, True, 3, 0, 2, 1)', 'fpr_ec(1, True, 1, 1, 0, 0)',
           'fpr_dsa_elg(True, 8, 16, 0x80, 0x80, 1, 0x81)', 'fpr_dsa_elg(False, 1, 9, 0, 0, 0, 0)', 'fingerprint_forms(0, 3, 5, True)', 'fingerprint_forms(1, 2, 4, False)']
